@@ -9,4 +9,5 @@ let () =
   | [| _; "world" |] -> drv_world ()
   | [| _; "pure" |] -> drv_pure ()
   | [| _; "main" |] -> drv_main ()
+  | [| _; "cfg" |] -> drv_cfg ()
   | _ -> prerr_endline "usage: modeldrv <driver>"; exit 2
